@@ -201,6 +201,9 @@ func (p *provRunner) Do(line string) {
 		if op.has("frac") {
 			pp.SlashMeterReplenishFraction = op.s("frac")
 		}
+		if op.has("rewepochs") {
+			pp.NumberOfEpochsToStartReceivingRewards = op.i("rewepochs")
+		}
 		w.pk.SetParams(w.ctx, pp)
 		// initial provider consensus set as InitGenesis would compute it
 		_ = w.atomically(func(ctx sdk.Context) error { _, e := w.pk.ProviderValidatorUpdates(ctx); return e })
@@ -727,6 +730,7 @@ func (p *provRunner) snapshotConsumer(ctx sdk.Context, id string) map[string]str
 	}
 	sort.Strings(cr)
 	m["commission"] = strings.Join(cr, ",")
+	p.snapshotAlloc(ctx, id, m)
 	return m
 }
 
@@ -804,6 +808,13 @@ func (p *provRunner) snapshotGlobal(ctx sdk.Context) map[string]string {
 		st = append(st, fmt.Sprintf("%d:%d:%d:%d:%d:%d:%d", r.ID, r.Tokens, r.Status, j, r.LastPower, tb, r.JailedUntil-t0.UnixNano()*b2i(r.JailedUntil != 0)))
 	}
 	m["stk"] = strings.Join(st, ",")
+	p.snapshotRewards(ctx, m)
+	var tax string
+	if !p.w.env.get(ctx, "distr/tax", &tax) {
+		tax = "0.020000000000000000"
+	}
+	m["tax"] = tax
+	m["rparams"] = fmt.Sprintf("%d", pp.NumberOfEpochsToStartReceivingRewards)
 	var bonded []string
 	vals, _ := p.w.stk.GetBondedValidatorsByPower(ctx)
 	for _, v := range vals {
